@@ -531,3 +531,18 @@ Definition init (p : params) (ts : list (Z * tkind)) (l : ledger) (h0 : Z) : sta
   {| pool := []; batches := []; by_block := []; next_tx := 1; next_batch := 1; next_call := 1;
      calls := []; by_sender := []; from_msg := []; pending := []; evn := 0; obs_ext := 0; obs_fx := 0;
      fxh := h0; bal := l; prm := p; toks := ts |}.
+
+(* ---------- genesis export + import of the module (keeper/genesis.go ExportGenesis, InitGenesis) ----------
+   Exported: params, last observed event nonce / heights, unbatched transfers, batches (StoreBatch rebuilds the block
+   index), oracles, attestations, ...  NOT exported: the three sequence counters 0x25..., the outgoing bridge calls with
+   their indexes, the parked claims. Not an [op]: the theorems about [reachable] are about a running chain. *)
+Definition export_import (s : state) : state :=
+  {| pool := pool s; batches := batches s; by_block := by_block s; next_tx := 1; next_batch := 1; next_call := 1;
+     calls := []; by_sender := []; from_msg := []; pending := []; evn := evn s; obs_ext := obs_ext s; obs_fx := obs_fx s;
+     fxh := fxh s; bal := bal s; prm := prm s; toks := toks s |}.
+
+(* the same with the counters re-derived from the imported records (smallest patch that avoids collisions with live records) *)
+Definition max_of (l : list Z) : Z := fold_right Z.max 0 l.
+Definition export_import_patched (s : state) : state :=
+  let s1 := export_import s in
+  set_next_batch (set_next_tx s1 (1 + max_of (map tx_id (pool s ++ flat_map b_txs (batches s))))) (1 + max_of (map b_nonce (batches s))).
